@@ -60,9 +60,13 @@ Inductive levent :=
 (* the next three are only produced by the Go harness (never by the model) *)
 | ETimeout                                (* some call of the scenario did not return within the harness's patience *)
 | EGoroutines (base final : nat)          (* goroutine count before New / after the last Stop returned and the callers were joined *)
-| EStopOver (t : nat).                    (* Stop call t has been running for longer than its grace period plus the harness's margin:
+| EStopOver (t : nat)                     (* Stop call t has been running for longer than its grace period plus the harness's margin:
                                              it waits for something other than the grace-bounded join (in the model every own step
                                              of a Stop caller is enabled, the join through its grace branch: Props C18_stop_never_waits) *)
+| EEmitOver (t : nat).                    (* Emit call t, parked on a full data channel when Stop was called, was still inside Emit when
+                                             the harness's bound after that Stop call had passed, although nothing drained the channel:
+                                             it was not released by the shutdown signal (in the model every own step of a producer is
+                                             enabled through its `done` branch once done is closed: Props C18_emit_released_by_stop) *)
 
 (* straight-line code of callSinksAsync / invokeSinksInline / AddSink on the current goroutine *)
 Inductive linstr :=
